@@ -144,6 +144,9 @@ type cfgT struct {
 	// ExtraMode: 0 every finding has its own Extra text; 1 all findings have the same (empty) Extra and
 	// differ in their target location; 2 all findings of one advisory are field-for-field identical
 	ExtraMode int `json:"extra_mode,omitempty"`
+	// Roots > 1: the scan gets that many scan roots (the further ones hold no package file); detectors
+	// still run once per scan and see the same index
+	Roots int `json:"scan_roots,omitempty"`
 }
 
 // finding builds finding j of detector i under the configuration's extra mode.
@@ -229,6 +232,9 @@ func runCase(c cfgT) (key, detail string) {
 		Detectors:            dets,
 		Capabilities:         &plugin.Capabilities{},
 		ScanRoots:            []*scalibrfs.ScanRoot{{FS: memfs.New(root), Path: ""}},
+	}
+	for i := 1; i < c.Roots; i++ {
+		cfg.ScanRoots = append(cfg.ScanRoots, &scalibrfs.ScanRoot{FS: memfs.New(memfs.D("", memfs.F("other.txt", "x"))), Path: ""})
 	}
 	var res *scalibr.ScanResult
 	p, stack := ev.Recover(func() { res = scalibr.New().Scan(context.Background(), cfg) })
@@ -612,6 +618,18 @@ func main() {
 						}
 					}
 				}
+				if pl.k >= 1 && pl.k <= 2 && (inv == 0 || inv == 15) {
+					// the same lists over two and three scan roots: detectors are per scan, not per root
+					for _, nr := range []int{2, 3} {
+						cr := cfgT{Dets: ds, Inv: inv, Roots: nr}
+						key, detail := runCase(cr)
+						r.Evals.Add(1)
+						r.Nontrivial.Add(1)
+						if key != "" {
+							r.Violation(key, fmt.Sprintf("detectors %v inventory mask %04b, %d scan roots: %s", ds, inv, nr, detail), cr)
+						}
+					}
+				}
 				key, detail := runCase(c)
 				r.Evals.Add(1)
 				if nf >= 2 && inv != 0 {
@@ -630,5 +648,5 @@ func main() {
 		r.Set(fmt.Sprintf("detector_lists_of_length_%d", pl.k), total)
 	}
 	indexNames(r)
-	r.Finish("every ordered list of 0..2 detectors over all 86 scripts (finding lists of length <=2 over {X/body1, X/body2 (other title), X/body1 with another nested CVSS score, Y/body1, no advisory, no advisory id} x {ok, error}) x all 16 inventories (2 packages from a filesystem extractor, 2 from a standalone extractor, one without PURL, two versions of one name); lists of 3 over the 14 short scripts (thorough: all 86 scripts x 3 inventories; lists of 4 over short scripts); for lists with >=2 findings and the empty/full inventory also with findings that all carry the same Extra text (differing only in target location, or identical); index lookups: every single package, every ordered pair of one type and the whole alphabet of 12 names (separators - _ . , case, scope, slash, space, non-ASCII) x 5 purl types (packages carry, in rotation, each annotation, a source-code identifier, layer details, no location), each queried by GetSpecific/GetAllOfType for every (name,type); real Scanner.Scan vs reference model of the detector run", complete)
+	r.Finish("every ordered list of 0..2 detectors over all 86 scripts (finding lists of length <=2 over {X/body1, X/body2 (other title), X/body1 with another nested CVSS score, Y/body1, no advisory, no advisory id} x {ok, error}) x all 16 inventories (2 packages from a filesystem extractor, 2 from a standalone extractor, one without PURL, two versions of one name); lists of 3 over the 14 short scripts (thorough: all 86 scripts x 3 inventories; lists of 4 over short scripts); for lists with >=2 findings and the empty/full inventory also with findings that all carry the same Extra text (differing only in target location, or identical); index lookups: every single package, every ordered pair of one type and the whole alphabet of 12 names (separators - _ . , case, scope, slash, space, non-ASCII) x 5 purl types (packages carry, in rotation, each annotation, a source-code identifier, layer details, no location), each queried by GetSpecific/GetAllOfType for every (name,type); lists of 1..2 detectors also over 2 and 3 scan roots; real Scanner.Scan vs reference model of the detector run", complete)
 }
